@@ -81,6 +81,8 @@ package jxpath
 //@   props C18 C09
 //@   requires fmtOK(format) && len(picture) <= 1073741824
 //@   ensures r1 == nil ==> varsOK(r0)
+//@   ensures [C18:both-sub-pictures-are-checked-whatever-the-sign] (r1 == nil && len(ret("splitStringAtRune#0", 1)) > 0) ==> (calls("processSubpicture#0") == 1 && calls("processSubpicture#1") == 1)
+//@   ensures [C18:a-picture-has-one-or-two-sub-pictures] len(ret("splitStringAtRune#0", 0)) == 0 ==> r1 != nil
 //@   assigns nothing
 //@ func round
 //@   props C18 C09
@@ -237,6 +239,7 @@ package jxpath
 //@ func insertSeparatorsEvery
 //@   props C18 C09
 //@   assigns nothing
+//@   atcall[C18:as-many-groups-as-the-digits-need-no-empty-leading-group] strings.Join#0 requires len(callee_arg0) * interval >= ret("utf8.RuneCountInString#0", 0) && (len(callee_arg0) - 1) * interval < ret("utf8.RuneCountInString#0", 0)
 //@   loop 0 invariant 0 <= n && n < len(chunks) && 0 <= end && end <= len(s) && interval > 0
 //@   loop 0 decreases n
 //@   loop 1 invariant 0 <= i && 0 <= pos && pos <= end && 0 <= n && n < len(chunks) && 0 < n && end <= len(s) && interval > 0
@@ -332,45 +335,74 @@ package jxpath
 //@ func parseWidth
 //@   props C09 C19
 //@   ensures r1 == nil ==> 0 <= r0
+// Each picture component shows the corresponding field of the instant: the component letter selects exactly one
+// formatter (call counters), and each numeric formatter hands the field package time reports for that instant to the
+// integer formatting with the marker's own layout.
 //@ func expandDateComponent
 //@   props C09 C19
 //@   requires marker != nil
+//@   ensures [C19:Y-is-the-year] component == dateYear ==> calls("formatYear#0") == 1
+//@   ensures [C19:M-is-the-month] component == dateMonth ==> calls("formatMonth#0") == 1
+//@   ensures [C19:D-is-the-day-of-the-month] component == dateDay ==> calls("formatDay#0") == 1
+//@   ensures [C19:d-is-the-day-of-the-year] component == dateDayOfYear ==> calls("formatDayInYear#0") == 1
+//@   ensures [C19:F-is-the-day-of-the-week] component == dateDayOfWeek ==> calls("formatDayOfWeek#0") == 1
+//@   ensures [C19:W-is-the-week-of-the-year] component == dateWeekOfYear ==> calls("formatWeekInYear#0") == 1
+//@   ensures [C19:H-is-the-24-hour-clock] component == dateHour24 ==> calls("formatHour24#0") == 1
+//@   ensures [C19:h-is-the-12-hour-clock] component == dateHour12 ==> calls("formatHour12#0") == 1
+//@   ensures [C19:P-is-am-pm] component == dateAMPM ==> calls("formatAMPM#0") == 1
+//@   ensures [C19:m-is-the-minute] component == dateMinute ==> calls("formatMinute#0") == 1
+//@   ensures [C19:s-is-the-second] component == dateSecond ==> calls("formatSecond#0") == 1
+//@   ensures [C19:f-is-the-fraction] component == dateNanosecond ==> calls("formatNanosecond#0") == 1
+//@   ensures [C19:Z-is-the-offset] component == dateTZ ==> calls("formatTimezoneUnprefixed#0") == 1
+//@   ensures [C19:z-is-the-prefixed-offset] component == dateTZPrefixed ==> calls("formatTimezonePrefixed#0") == 1
 //@ func formatMonth
 //@   props C09 C19
 //@   requires marker != nil
+//@   atcall[C19:month-number-of-the-instant] formatIntegerComponent#0 requires callee_n == ret("time.Time.Month#0", 0) && callee_marker == marker
 //@ func formatDay
 //@   props C09 C19
 //@   requires marker != nil
+//@   atcall[C19:day-of-the-month-of-the-instant] formatIntegerComponent#0 requires callee_n == ret("time.Time.Day#0", 0) && callee_marker == marker
 //@ func formatDayInYear
 //@   props C09 C19
 //@   requires marker != nil
+//@   atcall[C19:day-of-the-year-of-the-instant] formatIntegerComponent#0 requires callee_n == ret("time.Time.YearDay#0", 0) && callee_marker == marker
 //@ func formatDayOfWeek
 //@   props C09 C19
 //@   requires marker != nil
+//@   atcall[C19:weekday-number-Sunday-is-1] formatIntegerComponent#0 requires callee_n == ret("time.Time.Weekday#0", 0) + 1 && callee_marker == marker
 //@ func formatWeekInYear
 //@   props C09 C19
 //@   requires marker != nil
+//@   atcall[C19:ISO-week-number] formatIntegerComponent#0 requires callee_n == ret("time.Time.ISOWeek#0", 1) && callee_marker == marker
 //@ func formatWeekInMonth
 //@   props C09 C19
 //@   requires marker != nil
 //@ func formatHour24
 //@   props C09 C19
 //@   requires marker != nil
+//@   atcall[C19:24-hour-clock] formatHour#0 requires !callee_hour12 && callee_marker == marker
 //@ func formatHour12
 //@   props C09 C19
 //@   requires marker != nil
+//@   atcall[C19:12-hour-clock] formatHour#0 requires callee_hour12 && callee_marker == marker
 //@ func formatAMPM
 //@   props C09 C19
 //@   requires marker != nil
+//@   atif[C19:pm-from-noon-on] "t.Hour() >= 12" iff ret("time.Time.Hour#0", 0) >= 12
 //@ func formatMinute
 //@   props C09 C19
 //@   requires marker != nil
+//@   atcall[C19:minute-of-the-instant] formatIntegerComponent#0 requires callee_n == ret("time.Time.Minute#0", 0) && callee_marker == marker
 //@ func formatSecond
 //@   props C09 C19
 //@   requires marker != nil
+//@   atcall[C19:second-of-the-instant] formatIntegerComponent#0 requires callee_n == ret("time.Time.Second#0", 0) && callee_marker == marker
 //@ func formatNanosecond
 //@   props C09 C19
 //@   requires marker != nil
+//@   atcall[C19:fraction-of-the-instant] formatNano#0 requires callee_n == ret("time.Time.Nanosecond#0", 0)
+//@   atcall[C19:fraction-of-the-instant] formatNano#1 requires callee_n == ret("time.Time.Nanosecond#1", 0)
 //@ func getTimezoneStyle
 //@   props C09 C19
 //@   ensures r0 == tzSplit ==> r1 != nil
